@@ -38,6 +38,9 @@ def run(ctx):
                 if not g.satisfies_variant(p):
                     ctx.count("variant_unsatisfiable")
                     continue
+                if len(p) > 65535:
+                    ctx.count("payload_longer_than_a_frame_can_carry")
+                    continue
                 for bf in (0, 1):
                     f = msggen.frame(key, p)
                     cmds.append("PARSE %d 1 %d %s" % (mode, bf, f.hex()))
